@@ -8,6 +8,9 @@
 From Coq Require Import Permutation.
 From Mxj Require Import Model.XmlEnc Model.EncForms Spec.Veq Spec.EncOrder
   Proofs.C16Sort Proofs.C16P Proofs.C16Veq Proofs.C16Order Proofs.C16Forms.
+From Coq Require Import Sorting.Sorted.
+From Mxj Require Import Spec.SeqDistinct Spec.SeqSpec Proofs.C04P Proofs.C04ShapeDec
+  Proofs.C16Seq Proofs.C16SeqOrder Proofs.C16SeqWf Proofs.C16SeqDec.
 
 (* ---------------- the relation: equal Maps ---------------- *)
 Theorem C16_veq_refl : forall v, veq v v.
@@ -186,11 +189,132 @@ Proof. exact maps_json_string_indent_single. Qed.
 Print Assumptions C16_maps_json_string_indent_single.
 
 (* ---------------- MapSeq ----------------
-   NOT PROVED: seq_encode_perm_invariant / seq_children_in_sequence_order for MapSeq.Xml and
-   MapSeq.XmlIndent.  The MapSeq codec model (Model/SeqEnc.v) is written by the C04 check; until its
-   theorem is added HERE, determinism and sequence order of the MapSeq encoders are covered by the
-   Go-side oracle of harness/c16.go only (its seq-... clauses).  Intended statement:
-     forall o m m' root, wf m -> veq m m' -> distinct_seq m -> seq_encode o m root = seq_encode o m' root. *)
+   The MapSeq encoder (Model/SeqEnc.v: MapSeq.Xml / MapSeq.XmlIndent / mapToXmlSeqIndent) does not sort by key
+   but by the "#seq" numbers stored in the values (elemListSeq.Less); proofs in Proofs/C16Seq.v, C16SeqOrder.v,
+   C16SeqWf.v, C16SeqDec.v.  Side condition (Spec/SeqDistinct.v, decidable): [distinct_seq o v key] - at every
+   depth the encoder reaches, the sub-elements of one element (list members unrolled) carry pairwise distinct
+   sequence numbers and so do the attributes of one element; maps under "#comment"/"#directive"/"#procinst" are
+   exempt.  [distinct_seq_doc o m root] is that condition for what the root rule encodes.
+   NOT PROVED here: nothing of the MapSeq part of C16 is left open; the statement WITHOUT the side condition is
+   false (two refutations below), so it is not claimed. *)
+
+(* the heart of it: sort.Sort with elemListSeq.Less on pairwise distinct numbers forgets the order the members
+   came in *)
+Theorem C16_seq_sort_forgets_order : forall (A : Type) (num : A -> Z) (l l' : list A),
+  Permutation l l' -> NoDup (map num l) -> isort num l = isort num l'.
+Proof. exact (@isort_perm_nodup). Qed.
+Print Assumptions C16_seq_sort_forgets_order.
+
+(* mapToXmlSeqIndent: every option record, every value of any nesting, every key *)
+Theorem C16_seq_encode_perm_invariant : forall o v v' key,
+  wf v -> veq v v' -> distinct_seq o v key = true -> senc o v key = senc o v' key.
+Proof. exact senc_perm_invariant. Qed.
+Print Assumptions C16_seq_encode_perm_invariant.
+
+(* MapSeq.Xml(rootTag...) including the root selection *)
+Theorem C16_seq_xml_perm_invariant : forall o m m' root,
+  wf (VMap m) -> veq (VMap m) (VMap m') -> distinct_seq_doc o m root = true ->
+  seq_xml_items o m root = seq_xml_items o m' root.
+Proof. exact seq_xml_items_perm_invariant. Qed.
+Print Assumptions C16_seq_xml_perm_invariant.
+
+(* ... hence byte-identical output (or the same error, or the same panic) *)
+Theorem C16_seq_xml_bytes_perm_invariant : forall o m m' root,
+  wf (VMap m) -> veq (VMap m) (VMap m') -> distinct_seq_doc o m root = true ->
+  seq_bytes (seq_xml_items o m root) = seq_bytes (seq_xml_items o m' root).
+Proof. exact seq_xml_bytes_perm_invariant. Qed.
+Print Assumptions C16_seq_xml_bytes_perm_invariant.
+
+(* MapSeq.XmlIndent(prefix, indent, rootTag...): the items between which the whitespace is written *)
+Theorem C16_seq_xml_indent_perm_invariant : forall o m m' root,
+  wf (VMap m) -> veq (VMap m) (VMap m') -> distinct_seq_doc o m root = true ->
+  seq_xml_indent_items o m root = seq_xml_indent_items o m' root.
+Proof. exact seq_xml_indent_items_perm_invariant. Qed.
+Print Assumptions C16_seq_xml_indent_perm_invariant.
+
+(* the side condition is needed.  Two sub-elements without a sequence number (both compare as 9999999):
+   {"doc":{"a":"1","b":"2"}} is written <doc><b>2</b><a>1</a></doc> or <doc><a>1</a><b>2</b></doc> depending on
+   the iteration order of the map ... *)
+Theorem C16_seq_encode_perm_invariant_refuted :
+  exists m m', wf (VMap m) /\ veq (VMap m) (VMap m') /\ seq_xml_items opts0 m None <> seq_xml_items opts0 m' None.
+Proof. exact seq_encode_needs_distinct_numbers. Qed.
+Print Assumptions C16_seq_encode_perm_invariant_refuted.
+
+(* ... and so do two attributes with the same explicit number *)
+Theorem C16_seq_encode_attrs_perm_invariant_refuted :
+  exists m m', wf (VMap m) /\ veq (VMap m) (VMap m') /\ seq_xml_items opts0 m None <> seq_xml_items opts0 m' None.
+Proof. exact seq_encode_needs_distinct_attr_numbers. Qed.
+Print Assumptions C16_seq_encode_attrs_perm_invariant_refuted.
+
+(* sequence order.  An element (a map under a key other than the three special keys) that is encoded is written
+   either without sub-elements (start tag, text, end tag / empty-element form), or as start tag, leading text, the
+   encodings of ALL its sub-elements [seq_kids] in ascending order of their sequence numbers, end tag -
+   whatever the order of the entry list; no well-formedness or distinctness hypothesis *)
+Theorem C16_seq_children_in_sequence_order : forall o key val its,
+  is_special_key o key = false ->
+  senc o (VMap val) key = Ok its ->
+  exists ha attrs,
+    sattrs o val = Ok (ha, attrs) /\
+    ((exists t, its = [SI (IOpen key attrs); SI (IText t); SI (IClose key)]) \/
+     its = empty_or_broken o key attrs \/
+     exists ks bodies,
+       Permutation ks (seq_kids o val) /\
+       StronglySorted Z.le (map (fun kv => seq_num o (snd kv)) ks) /\
+       Forall2 (fun kv body => senc o (snd kv) (fst kv) = Ok body) ks bodies /\
+       its = SI (IOpen key attrs) :: lead_text o val ++ concat bodies ++ [SI (IClose key)]).
+Proof. exact senc_children_in_sequence_order. Qed.
+Print Assumptions C16_seq_children_in_sequence_order.
+
+(* under the side condition the order is strict, i.e. the sequence of sub-elements written is unique *)
+Theorem C16_seq_children_strictly_ascending : forall o val ks,
+  nodupZ (kid_seqs o val) = true ->
+  Permutation ks (seq_kids o val) ->
+  StronglySorted Z.le (map (fun kv => seq_num o (snd kv)) ks) ->
+  StronglySorted Z.lt (map (fun kv => seq_num o (snd kv)) ks).
+Proof. exact sorted_kids_strict. Qed.
+Print Assumptions C16_seq_children_strictly_ascending.
+
+(* the attributes written are the entries of the "#attr" map in ascending order of their sequence numbers, under
+   their names *)
+Theorem C16_seq_attrs_in_sequence_order : forall o val ha attrs,
+  sattrs o val = Ok (ha, attrs) ->
+  match lookup (attrK o) val with
+  | Some (VMap aa) =>
+      ha = true /\
+      exists sorted, Permutation sorted aa /\ StronglySorted Z.le (attr_seqs o sorted) /\
+                     sattrs_loop o sorted = Ok attrs /\ map fst attrs = map fst sorted
+  | _ => ha = false /\ attrs = []
+  end.
+Proof. exact sattrs_in_sequence_order. Qed.
+Print Assumptions C16_seq_attrs_in_sequence_order.
+
+(* the decoder.  Every MapSeq NewMapXmlSeq returns - any options, RawToken stream (well formed or not),
+   terminator, cast flag - is well formed ... *)
+Theorem C16_seq_decoded_wf : forall pf skip o r ts tm m,
+  seq_decode pf skip o r ts tm = Ok m -> wf m.
+Proof. exact seq_decode_wf. Qed.
+Print Assumptions C16_seq_decoded_wf.
+
+(* ... and, in the option states of C04 and for start-tag names that are non-empty and none of the generated keys
+   (XML names cannot begin with '#'), meets the side condition for every root tag argument ... *)
+Theorem C16_seq_decoded_distinct : forall pf skip (e r : bool) ts tm m,
+  forallb (tok_ok e) ts = true ->
+  seq_decode pf skip (seq_o e) r ts tm = Ok m ->
+  exists k v, m = VMap [(k, v)] /\ str_ok e k = true /\
+              forall root, distinct_seq_doc (seq_o e) [(k, v)] root = true.
+Proof. exact seq_decode_distinct. Qed.
+Print Assumptions C16_seq_decoded_distinct.
+
+(* ... hence a decoded MapSeq is encoded to the same items by MapSeq.Xml and by MapSeq.XmlIndent whatever the
+   order of its entry lists at every depth *)
+Theorem C16_seq_decoded_deterministic : forall pf skip (e r : bool) ts tm m m' root,
+  forallb (tok_ok e) ts = true ->
+  seq_decode pf skip (seq_o e) r ts tm = Ok (VMap m) ->
+  veq (VMap m) (VMap m') ->
+  seq_xml_items (seq_o e) m' root = seq_xml_items (seq_o e) m root /\
+  seq_xml_indent_items (seq_o e) m' root = seq_xml_indent_items (seq_o e) m root.
+Proof. exact seq_decoded_deterministic. Qed.
+Print Assumptions C16_seq_decoded_deterministic.
 
 (* ---------------- non-vacuity ---------------- *)
 Definition ex_m : value :=
@@ -237,3 +361,79 @@ Example ex_json : map_json (Ok (s "{""a"":""<""}" ++ [nl])) = Ok (s "{""a"":""<"
 Proof. vm_compute. reflexivity. Qed.
 Example ex_maps_json : maps_json_string true (fun safe => if safe then [Ok (s "{""a"":1}"); Ok (s "{}")] else []) = (s "{""a"":1}{}", None).
 Proof. vm_compute. reflexivity. Qed.
+
+(* ---------------- non-vacuity, MapSeq ---------------- *)
+(* two levels, the tag b repeated (a list) with a and a comment in between, attributes, a processing instruction *)
+Definition ex_sq (z : Z) : str * value := (s "#seq", VInt z).
+Definition ex_seq_m : entries :=
+  [(s "doc", VMap [(s "#attr", VMap [(s "id", VMap [(s "#text", VStr (s "7")); ex_sq 1]);
+                                     (s "a", VMap [(s "#text", VStr (s "x")); ex_sq 0])]);
+                   (s "b", VList [VMap [(s "#text", VStr (s "one")); ex_sq 0];
+                                  VMap [ex_sq 3; (s "c", VMap [(s "#text", VStr (s "deep")); ex_sq 1]); (s "d", VMap [ex_sq 0])]]);
+                   (s "#comment", VMap [(s "#text", VStr (s " note ")); ex_sq 1]);
+                   (s "a", VMap [(s "#text", VStr (s "two")); ex_sq 2]);
+                   (s "#procinst", VMap [(s "#target", VStr (s "pi")); (s "#inst", VStr (s "x")); ex_sq 4])])].
+(* the same content, every entry list in another order *)
+Definition ex_seq_m' : entries :=
+  [(s "doc", VMap [(s "#procinst", VMap [ex_sq 4; (s "#inst", VStr (s "x")); (s "#target", VStr (s "pi"))]);
+                   (s "a", VMap [ex_sq 2; (s "#text", VStr (s "two"))]);
+                   (s "#comment", VMap [ex_sq 1; (s "#text", VStr (s " note "))]);
+                   (s "b", VList [VMap [ex_sq 0; (s "#text", VStr (s "one"))];
+                                  VMap [(s "d", VMap [ex_sq 0]); (s "c", VMap [ex_sq 1; (s "#text", VStr (s "deep"))]); ex_sq 3]]);
+                   (s "#attr", VMap [(s "a", VMap [ex_sq 0; (s "#text", VStr (s "x"))]);
+                                     (s "id", VMap [ex_sq 1; (s "#text", VStr (s "7"))])])])].
+
+Example ex_seq_wf : wf (VMap ex_seq_m).
+Proof. vm_compute. reflexivity. Qed.
+Example ex_seq_veq : veq (VMap ex_seq_m) (VMap ex_seq_m').
+Proof. apply veqb_sound; [exact ex_seq_wf | vm_compute; reflexivity]. Qed.
+Example ex_seq_differ : ex_seq_m <> ex_seq_m'.
+Proof. discriminate. Qed.
+Example ex_seq_distinct : distinct_seq_doc opts0 ex_seq_m None = true /\ distinct_seq_doc opts0 ex_seq_m (Some (s "root")) = true.
+Proof. vm_compute. split; reflexivity. Qed.
+Example ex_seq_bytes :
+  seq_bytes (seq_xml_items opts0 ex_seq_m' None)
+  = Ok (s "<doc a=""x"" id=""7""><b>one</b><!-- note --><a>two</a><b><d/><c>deep</c></b><?pi x?></doc>").
+Proof. vm_compute. reflexivity. Qed.
+Example ex_seq_same_bytes :
+  seq_bytes (seq_xml_items opts0 ex_seq_m None) = seq_bytes (seq_xml_items opts0 ex_seq_m' None).
+Proof. apply C16_seq_xml_bytes_perm_invariant; [exact ex_seq_wf | exact ex_seq_veq | apply ex_seq_distinct]. Qed.
+Example ex_seq_same_indent_items :
+  seq_xml_indent_items opts0 ex_seq_m (Some (s "root")) = seq_xml_indent_items opts0 ex_seq_m' (Some (s "root")).
+Proof. apply C16_seq_xml_indent_perm_invariant; [exact ex_seq_wf | exact ex_seq_veq | apply ex_seq_distinct]. Qed.
+(* the hypotheses of the order theorems: "doc" is no special key, the element is encoded, it has attributes *)
+Example ex_seq_order_hyps :
+  let val := match ex_seq_m' with [(_, VMap val)] => val | _ => [] end in
+  is_special_key opts0 (s "doc") = false /\
+  (exists its, senc opts0 (VMap val) (s "doc") = Ok its /\ 10 < length its) /\
+  sattrs opts0 val = Ok (true, [(s "a", s "x"); (s "id", s "7")]) /\
+  map (fun kv => seq_num opts0 (snd kv)) (seq_kids opts0 val) = [4; 2; 1; 0; 3]%Z /\
+  nodupZ (kid_seqs opts0 val) = true.
+Proof.
+  cbv zeta. split; [reflexivity|]. split; [|vm_compute; repeat split].
+  destruct (senc opts0 _ (s "doc")) as [its| |] eqn:E; try (vm_compute in E; discriminate E).
+  exists its. split; [reflexivity|]. vm_compute in E. injection E as <-. vm_compute. repeat constructor.
+Qed.
+(* the decoder: example_doc of C04 (Proofs/C04P.v: prefixed names, attributes, repeated a, comment, PI, directive,
+   text before children) is decoded; every entry list of the result reversed is another presentation of it *)
+Fixpoint ex_vrev (v : value) : value :=
+  match v with
+  | VMap m => VMap (rev ((fix go (m : entries) : entries :=
+                            match m with [] => [] | (k, x) :: t => (k, ex_vrev x) :: go t end) m))
+  | VList l => VList ((fix go (l : list value) : list value :=
+                         match l with [] => [] | x :: t => ex_vrev x :: go t end) l)
+  | _ => v
+  end.
+Definition ex_seq_decoded : res value :=
+  seq_decode (fun _ => None) (fun _ => false) (seq_o true) false (rawtoks_of example_doc) TermEOF.
+Example ex_seq_decoded_hyps :
+  forallb (tok_ok true) (rawtoks_of example_doc) = true /\
+  exists m, ex_seq_decoded = Ok (VMap m) /\ veq (VMap m) (ex_vrev (VMap m)) /\ value_eqb (VMap m) (ex_vrev (VMap m)) = false.
+Proof.
+  split; [vm_compute; reflexivity|].
+  destruct ex_seq_decoded as [[| | | | | | | |m|]| |] eqn:E; try (vm_compute in E; discriminate E).
+  exists m. split; [reflexivity|].
+  pose proof (C16_seq_decoded_wf _ _ _ _ _ _ _ E) as Hwf.
+  vm_compute in E. injection E as <-.
+  split; [apply veqb_sound; [exact Hwf | vm_compute; reflexivity] | vm_compute; reflexivity].
+Qed.
